@@ -276,5 +276,90 @@ pub open spec fn object_image(o: JsObject, m: Map<Seq<char>, JsonT>) -> bool {
 // R15 iterates the member list by reference; the JsValue handle handed to the recursive call is the same value
 #[verifier::external_body]
 pub fn js_clone(v: &JsValue) -> (r: JsValue) ensures r == *v { unimplemented!() }
+// ---- JSON -> JS, Array arm of `impl IntoJs for ActValue`: "arrays ... are seen with the same value inside conditions and scripts"
+// a JS array under construction (rquickjs Array: interior mutability behind a handle; modelled as a mutable sequence)
+#[verifier::external_body]
+pub struct JsArrayM { _p: u8 }
+impl JsArrayM {
+    pub uninterp spec fn view(&self) -> Seq<JsValue>;
+    // R7: `JsArray::new(ctx.clone()).unwrap()`
+    #[verifier::external_body]
+    pub fn new(ctx: Ctx) -> (r: Self) ensures r@ == Seq::<JsValue>::empty() { unimplemented!() }
+    // R7: `arr.set(idx, val).unwrap()`: element idx is written (appending when idx is the length)
+    #[verifier::external_body]
+    pub fn set_at(&mut self, idx: usize, val: JsValue)
+        requires idx <= old(self)@.len()
+        ensures final(self)@ == (if idx < old(self)@.len() { old(self)@.update(idx as int, val) } else { old(self)@.push(val) }) { unimplemented!() }
+}
+pub uninterp spec fn js_arr_of(v: JsValue) -> Seq<JsValue>;
+// R7: `JsValue::from_array(arr)`
+#[verifier::external_body]
+pub fn js_from_array(arr: JsArrayM) -> (r: JsValue) ensures js_arr_of(r) == arr@ { unimplemented!() }
+// the JS image of a JSON value (the result of ActValue::into_js: the function this arm belongs to; recursion = its own contract)
+pub uninterp spec fn js_of_json(v: JsonValue) -> JsValue;
+// R7: `ActValue(v.clone()).into_js(ctx).unwrap()`: the recursive call, ASSUMED to meet the contract of the whole function
+#[verifier::external_body]
+pub fn elem_into_js(v: &JsonValue, ctx: &Ctx) -> (r: JsValue) ensures r == js_of_json(*v) { unimplemented!() }
+//@@ extract file=acts/src/env/value.rs in="impl<'js> IntoJs<'js> for ActValue" item="fn into_js" arm="serde_json::Value::Array(v)" name=ActValue::into_js::array sig="pub fn into_js_array(v: Vec<JsonValue>, ctx: &Ctx) -> JsValue"
+//@@ opt rewrites=R1,R2,R3,R5,R13,R15
+//@@ rw R7 `let arr = JsArray :: new ( ctx . clone ( ) ) . unwrap ( ) ;` => `let mut arr = JsArrayM::new(ctx.clone());`
+//@@ rw R12 `for ( idx , v ) in v . iter ( ) . enumerate ( ) $B:block` => `let mut idx: usize = 0; for v in v.iter() { $B idx = idx + 1; }`
+//@@ rw R7 `ActValue ( v . clone ( ) ) . into_js ( ctx ) . unwrap ( )` => `elem_into_js(v, ctx)`
+//@@ rw R7 `arr . set ( idx , val ) . unwrap ( ) ;` => `arr.set_at(idx, val);`
+//@@ rw R7 `JsValue :: from_array ( arr )` => `js_from_array(arr)`
+//@@ spec
+    ensures
+        //# J1-an-array-is-seen-with-the-same-length-and-every-element-in-its-place
+        js_arr_of(ret).len() == v@.len() && forall|i: int| 0 <= i < v@.len() ==> #[trigger] js_arr_of(ret)[i] == js_of_json(v@[i]),
+//@@ loop 1
+        invariant
+            //# elements-so-far
+            idx == __i1 && arr@.len() == __i1 && (forall|i: int| 0 <= i < __i1 ==> #[trigger] arr@[i] == js_of_json(__v1@[i])),
+//@@ end
+// ---- JSON -> JS, Object arm of `impl IntoJs for ActValue`
+// a JSON object handed to a script: its entries (serde_json::Map iterates each key once)
+#[verifier::external_body]
+pub struct JsonObjIn { _p: u8 }
+impl JsonObjIn {
+    pub uninterp spec fn view(&self) -> Map<Seq<char>, JsonValue>;
+    // R12: `for (k, v) in v`: the entries of the map, each key once
+    #[verifier::external_body]
+    pub fn entries(&self) -> (r: Vec<(String, JsonValue)>)
+        ensures forall|i: int| 0 <= i < r@.len() ==> self@.dom().contains((#[trigger] r@[i]).0@) && self@[r@[i].0@] == r@[i].1,
+            forall|i: int, j: int| 0 <= i < j < r@.len() ==> (#[trigger] r@[i]).0@ != (#[trigger] r@[j]).0@,
+            forall|k: Seq<char>| self@.dom().contains(k) ==> exists|i: int| 0 <= i < r@.len() && (#[trigger] r@[i]).0@ == k { unimplemented!() }
+}
+// a JS object under construction (rquickjs Object handle; modelled as a mutable map)
+#[verifier::external_body]
+pub struct JsObjectM { _p: u8 }
+impl JsObjectM {
+    pub uninterp spec fn view(&self) -> Map<Seq<char>, JsValue>;
+    // R7: `JsObject::new(ctx.clone()).unwrap()`
+    #[verifier::external_body]
+    pub fn new(ctx: Ctx) -> (r: Self) ensures r@ == Map::<Seq<char>, JsValue>::empty() { unimplemented!() }
+    // R7: `obj.set(k.into_atom(ctx).unwrap(), <value>).unwrap()`: the member named k is written
+    #[verifier::external_body]
+    pub fn set_member(&mut self, k: String, v: JsValue) ensures final(self)@ == old(self)@.insert(k@, v) { unimplemented!() }
+}
+pub uninterp spec fn js_members_of(v: JsValue) -> Map<Seq<char>, JsValue>;
+// R7: `JsValue::from_object(obj)`
+#[verifier::external_body]
+pub fn js_from_object(obj: JsObjectM) -> (r: JsValue) ensures js_members_of(r) == obj@ { unimplemented!() }
+//@@ extract file=acts/src/env/value.rs in="impl<'js> IntoJs<'js> for ActValue" item="fn into_js" arm="serde_json::Value::Object(v)" name=ActValue::into_js::object sig="pub fn into_js_object(v: JsonObjIn, ctx: &Ctx) -> JsValue"
+//@@ opt rewrites=R1,R2,R3,R5,R13,R15 attr="#[verifier::loop_isolation(false)]"
+//@@ rw R7 `let obj = JsObject :: new ( ctx . clone ( ) ) . unwrap ( ) ;` => `let mut obj = JsObjectM::new(ctx.clone());`
+//@@ rw R12 `for ( k , v ) in v $B:block` => `for (k, v) in v.entries().iter() $B`
+//@@ rw R7 `obj . set ( k . into_atom ( ctx ) . unwrap ( ) , ActValue ( v ) . into_js ( ctx ) . unwrap ( ) ) . unwrap ( ) ;` => `obj.set_member(clone_string(k), elem_into_js(v, ctx));`
+//@@ rw R7 `JsValue :: from_object ( obj )` => `js_from_object(obj)`
+//@@ spec
+    ensures
+        //# J1-an-object-is-seen-with-exactly-its-keys-and-every-member-converted
+        js_members_of(ret).dom() =~= v@.dom() && forall|k: Seq<char>| v@.dom().contains(k) ==> #[trigger] js_members_of(ret)[k] == js_of_json(v@[k]),
+//@@ loop 1
+        invariant
+            //# members-so-far
+            (forall|k: Seq<char>| #[trigger] obj@.dom().contains(k) <==> exists|i: int| 0 <= i < __i1 && (#[trigger] __v1@[i]).0@ == k)
+                && (forall|i: int| 0 <= i < __i1 ==> obj@[(#[trigger] __v1@[i]).0@] == js_of_json(__v1@[i].1)),
+//@@ end
 } // verus!
 fn main() {}
